@@ -6,6 +6,7 @@ package state
 import (
 	"errors"
 	"fmt"
+	"sort"
 	"strings"
 
 	memdb "github.com/hashicorp/go-memdb"
@@ -1231,7 +1232,17 @@ func validateProposedConfigEntryInServiceGraph(
 		svcTopNodeType              = make(map[structs.ServiceID]string)
 		exportedServicesByPartition = make(map[string]map[structs.ServiceName]struct{})
 	)
+	// Check the chains in a fixed order: the first failing chain decides the
+	// error that is returned, and that error is part of the command's result
+	// on every server that applies the entry.
+	sortedChains := make([]structs.ServiceID, 0, len(checkChains))
 	for serviceID := range checkChains {
+		sortedChains = append(sortedChains, serviceID)
+	}
+	sort.Slice(sortedChains, func(i, j int) bool {
+		return sortedChains[i].String() < sortedChains[j].String()
+	})
+	for _, serviceID := range sortedChains {
 		chain, err := testCompileDiscoveryChain(tx, serviceID.ID, overrides, &serviceID.EnterpriseMeta)
 		if err != nil {
 			return err
